@@ -7,7 +7,7 @@ from ..util import Result
 
 
 def worker(wseed, prop, genname, budget_s, hist_len, binary, check_every=0, max_cmds=None, seeder="pool",
-           extra_env=None, label=None):
+           extra_env=None, label=None, restart_prob=0.0):
     import importlib
     rng = util.rng_for(wseed, prop)
     res = Result()
@@ -29,7 +29,20 @@ def worker(wseed, prop, genname, budget_s, hist_len, binary, check_every=0, max_
                 elif seeder == "pool" and rng.random() < 0.85:
                     for argv in gen.seed_commands(rng):
                         d.step(argv, probe=False, cellinfo=False)
+                restart_at = rng.randrange(n) if (restart_prob and rng.random() < restart_prob) else -1
                 for i in range(n):
+                    if i == restart_at:
+                        # SAVE, kill, start on the same directory: what the commands mean must not depend
+                        # on whether the value was built by this process or loaded from its dump
+                        r = d.c.cmd("SAVE", timeout=60)
+                        if r != resp.OK:
+                            d.diverge("restart/save-failed", "SAVE in the middle of a history -> %s" % resp.show(r))
+                        srv.restart()
+                        d.connect()
+                        d.history.append([b"<SAVE, SIGKILL, restart>"])
+                        res.count("restarts_inside_histories")
+                        res.cell("restart", "mid-history")
+                        d.full_compare(dbs=[0])
                     argv = genfn(rng, d.model, d.db)
                     d.step(argv, probe=None if rng.random() < 0.8 else True)
                     if check_every and (i + 1) % check_every == 0:
@@ -64,7 +77,7 @@ def sanitizer_pass(prop, genname, seed, budget_s, hist_len, check_every, profile
 
 
 def run(prop, tier, genname, rule, budget_quick=20, budget_thorough=240, hist_len=(20, 200), check_every=0,
-        assumptions=None, extra_fn=None, asan_budget=90):
+        assumptions=None, extra_fn=None, asan_budget=90, restart_prob=0.0):
     t0 = time.time()
     seed = util.seed_from_env()
     binary, bt = server.build("dev")
@@ -72,7 +85,7 @@ def run(prop, tier, genname, rule, budget_quick=20, budget_thorough=240, hist_le
     n = util.jobs()
     seeds = [seed * 1000 + i for i in range(n)]
     res = util.run_workers(worker, seeds, dict(prop=prop, genname=genname, budget_s=budget, hist_len=hist_len,
-                                               binary=binary, check_every=check_every))
+                                               binary=binary, check_every=check_every, restart_prob=restart_prob))
     res.extra["build_s"] = round(bt, 1)
     if tier == "thorough" and asan_budget:
         res.merge(sanitizer_pass(prop, genname, seed, asan_budget, hist_len, check_every))
